@@ -46,15 +46,18 @@ type Input struct {
 	Claimed int64  `json:"claimed"` // ... and the size it claims
 	// the statement enforces revocation and a caller-supplied validator answers with (chain length + RevSurplus)
 	// results, through RevocationCodeSigningValidator or (RevClient) the deprecated RevocationClient
-	Rev        bool     `json:"rev"`
-	RevSurplus int      `json:"revSurplus"`
-	RevClient  bool     `json:"revClient"`
-	Keys       []string `json:"keys"`  // signingKeys cases: names of the key list
-	Deflt      *string  `json:"deflt"` // ... its default
-	Names      []string `json:"names"` // ... the argument list of Remove
-	Fuzz       bool     `json:"fuzz"`
-	Label      string   `json:"label"`
-	Data       string   `json:"data"`
+	Rev        bool `json:"rev"`
+	RevSurplus int  `json:"revSurplus"`
+	RevClient  bool `json:"revClient"`
+	// ... the entries of that vector being nil pointers (RevNil), every non-nil result holding a nil server result (RevNilServer)
+	RevNil       bool     `json:"revNil"`
+	RevNilServer bool     `json:"revNilServer"`
+	Keys         []string `json:"keys"`  // signingKeys cases: names of the key list
+	Deflt        *string  `json:"deflt"` // ... its default
+	Names        []string `json:"names"` // ... the argument list of Remove
+	Fuzz         bool     `json:"fuzz"`
+	Label        string   `json:"label"`
+	Data         string   `json:"data"`
 }
 
 type Outcome struct {
@@ -149,8 +152,9 @@ func (w *world) verifier(in Input) (notation.Verifier, notation.BlobVerifier, sk
 		opts.PluginManager = &common.ScriptedManager{Plugins: map[string]pluginfw.Plugin{}}
 	}
 	if in.Rev {
-		// a caller-supplied revocation validator: (chain length + RevSurplus) results, every one of them OK
-		script := &common.ScriptedRevocation{Results: countedResults(in.RevSurplus)}
+		// a caller-supplied revocation validator: (chain length + RevSurplus) results, every one of them OK - or nil
+		// (RevNil), or OK with a nil server result (RevNilServer)
+		script := &common.ScriptedRevocation{Results: shapedResults(in.RevSurplus, in.RevNil, in.RevNilServer)}
 		if in.RevClient {
 			opts.RevocationClient = script.ClientView()
 		} else {
@@ -584,13 +588,15 @@ func Run(c *common.Ctx) error {
 						for _, named := range []bool{true, false} {
 							for _, rv := range revVariants {
 								in := Input{Entry: entry, OCI: oci, Blob: bl, Manager: mgr, Sig: sig, Named: named, Workers: 1,
-									Rev: rv.rev, RevSurplus: rv.surplus, RevClient: rv.client}
+									Rev: rv.rev, RevSurplus: rv.surplus, RevClient: rv.client, RevNil: rv.nilEntries, RevNilServer: rv.nilServer}
 								o := w.runMatrix(in)
 								emitCase(c, in, o)
 								c.Count("entry=" + entry)
 								c.Count(fmt.Sprintf("named=%v", named))
 								c.Count(fmt.Sprintf("err=%v", o.Err))
-								if rv.rev {
+								if rv.nilEntries || rv.nilServer {
+									c.Count(fmt.Sprintf("revocation-results=chain%+d nil-entries=%v nil-server-results=%v", rv.surplus, rv.nilEntries, rv.nilServer))
+								} else if rv.rev {
 									c.Count(fmt.Sprintf("revocation-results=chain%+d", rv.surplus))
 								} else {
 									c.Count("revocation-results=not-asked")
@@ -627,6 +633,6 @@ func Run(c *common.Ctx) error {
 	for _, p := range w.panics {
 		c.Note("panic: %s", p)
 	}
-	c.Note("configuration matrix: 8 entry points x OCI document {missing, no match, skip, enforce} x blob document (same) x plugin manager {nil, present} x signature {valid, garbage, demands a missing plugin} x blob statement asked for {by name, empty name = global statement} x revocation {skipped by the statement, enforced with a caller-supplied validator / deprecated client answering chain length -2 .. +3 results} (exhaustive); SigningKeys.Remove (modelled: 14 key lists - nil, empty, repeated and unnamed keys, dangling default - x every argument list of up to 3 names over {a, b, c, empty, unknown} and random longer ones, every other exported method used on what Remove left behind) and random histories of all exported SigningKeys methods; revocation result vectors (count {none, chain-1, chain, chain+1, chain+2, 2 chain, 1, 64} x result values x server results x {code signing validator, deprecated client, timestamping validator on a countersigned signature, all} x JWS / COSE x statements, through Verify / VerifyBlob / notation.Verify); referrer node shapes in a store without Referrers API (artifact / image manifest x subject {absent, null, empty, target, other size, other artifact} x artifact type x blobs / layers {absent, null, empty, envelope, the target itself, ...} x config x annotations, announced under either media type, non-manifests); configuration-file sweep (every file the library reads x {absent, empty, every 1- and 2-byte string over a small alphabet, byte order marks alone / before the document / cut, every prefix of the valid document, UTF-16, directory / symlink in place of the file, ...} through the file-based loaders and New*FromConfig constructors, the loaded object then used); hostile store behind oras.GraphTarget (child process, modelled: descriptor {referrer announced by the predecessor list, signature manifest from the Referrers API / the caller, envelope, config} x claimed size {min int64, -1, 0, 1, actual-1, actual, actual+1, cap-1, cap, cap+1, 2 cap, 64 MiB, 768 MiB, 2^40, 2^62, max int64, random} x delivered content {honest, an empty object, zeros without end} through ListSignatures / FetchSignatureBlob / notation.Verify: content is asked for iff the claim is within its cap, every call within an allocation budget of 80 MiB by runtime.MemStats.TotalAlloc); concurrent stages (child processes: one trust store / verifier / plugin manager / document / CRL cache / repository / signer shared by several goroutines, every goroutine must observe the sequential observation, a crashed child is the violation); malformed-input stream (sampled, fuzz-style): mutated JWS/COSE envelopes, random bytes, OCI/blob policy JSON, config.json / signingkeys.json, CRL cache entries, trust store files; verifier configuration sweep (valid-but-unusual signatures: countersigned, numeric COSE labels, plugin attributes x plugin manager / plugin answers x revocation options x tsa policies; verdict not modelled, only no-panic + pair consistency); hostile OCI layout sweep (lying layer sizes up to 2^63-1, null fields, hand-made descriptors) through ListSignatures / FetchSignatureBlob / notation.Verify; heap high-water mark %d MiB", w.maxHeap>>20)
+	c.Note("configuration matrix: 8 entry points x OCI document {missing, no match, skip, enforce} x blob document (same) x plugin manager {nil, present} x signature {valid, garbage, demands a missing plugin} x blob statement asked for {by name, empty name = global statement} x revocation {skipped by the statement, enforced with a caller-supplied validator / deprecated client answering chain length -2 .. +3 results, the vector of nil ENTRIES (right count and one more: fails closed, modelled), results holding nil SERVER results (does not matter, modelled)} (exhaustive); SigningKeys.Remove (modelled: 14 key lists - nil, empty, repeated and unnamed keys, dangling default - x every argument list of up to 3 names over {a, b, c, empty, unknown} and random longer ones, every other exported method used on what Remove left behind) and random histories of all exported SigningKeys methods; revocation result vectors (count {none, chain-1, chain, chain+1, chain+2, 2 chain, 1, 64} x result values x server results, and vectors with nil entries (all, the leaf's, the root's, one too many) / nil server results x {code signing validator, deprecated client, timestamping validator on a countersigned signature, all} x JWS / COSE x statements, through Verify / VerifyBlob / notation.Verify); referrer node shapes in a store without Referrers API (artifact / image manifest x subject {absent, null, empty, target, other size, other artifact} x artifact type x blobs / layers {absent, null, empty, envelope, the target itself, ...} x config x annotations, announced under either media type, non-manifests); configuration-file sweep (every file the library reads x {absent, empty, every 1- and 2-byte string over a small alphabet, byte order marks alone / before the document / cut, every prefix of the valid document, UTF-16, directory / symlink in place of the file, ...} through the file-based loaders and New*FromConfig constructors, the loaded object then used); hostile store behind oras.GraphTarget (child process, modelled: descriptor {referrer announced by the predecessor list, signature manifest from the Referrers API / the caller, envelope, config} x claimed size {min int64, -1, 0, 1, actual-1, actual, actual+1, cap-1, cap, cap+1, 2 cap, 64 MiB, 768 MiB, 2^40, 2^62, max int64, random} x delivered content {honest, an empty object, zeros without end} through ListSignatures / FetchSignatureBlob / notation.Verify: content is asked for iff the claim is within its cap, every call within an allocation budget of 80 MiB by runtime.MemStats.TotalAlloc); concurrent stages (child processes: one trust store / verifier / plugin manager / document / CRL cache / repository / signer shared by several goroutines, every goroutine must observe the sequential observation, a crashed child is the violation); malformed-input stream (sampled, fuzz-style): mutated JWS/COSE envelopes, random bytes, OCI/blob policy JSON, config.json / signingkeys.json, CRL cache entries, trust store files; verifier configuration sweep (valid-but-unusual signatures: countersigned, numeric COSE labels, plugin attributes x plugin manager / plugin answers x revocation options x tsa policies; verdict not modelled, only no-panic + pair consistency); hostile OCI layout sweep (lying layer sizes up to 2^63-1, null fields, hand-made descriptors) through ListSignatures / FetchSignatureBlob / notation.Verify; heap high-water mark %d MiB", w.maxHeap>>20)
 	return nil
 }
